@@ -29,6 +29,7 @@ Shape(c, vis, f) == [c |-> c, vis |-> vis, f |-> f]
 FunFeatureSets(tier) ==
   { {}, {"pmiss"}, {"rmiss"}, {"tuple"}, {"set"}, {"listmulti"}, {"set", "setmulti"}, {"variadic"}, {"optposonly"}, {"reqkwonly"},
     {"unknownvalue"},
+    {"@calltuple"},                  \* a callable parameter whose result is a tuple: written as two results, no tuple type is shown
     {"@kwnone"},                     \* a keyword-only parameter whose default is None: optional, so no marker
     {"optposonly", "@posnone"} }     \* a position-only parameter whose default is None: optional, so the marker
   \cup (IF tier = "quick" THEN {} ELSE { {"pmiss", "tuple", "variadic"}, {"rmiss", "reqkwonly"}, {"optposonly", "unknownvalue", "set"} })
